@@ -246,6 +246,8 @@ class HistoryGen:
         self.ops = []
         self.recent = []  # recently used query expressions (re-query bias)
         self.recent_cs = []
+        self.recent_approx = []
+        self.recent_cs_approx = []
         self.weights = dict(DEFAULT_WEIGHTS)
         self.weights.update(profile.get("weights", {}))
         if profile.get("swarm", True):
@@ -314,24 +316,33 @@ class HistoryGen:
                 cs.append(["eq", ["var", n], ["const", m[i], w]])
         return cs
 
+    def _recent(self, h, which):
+        """recently used expressions are kept per alphabet: an expression generated for an exact frontend must not be
+        re-queried on an approximate one (it may use operations outside the approximate alphabet)"""
+        if self.egf(h) is self.eg_approx and self.eg_approx.allow != self.eg.allow:
+            return self.recent_approx if which == "q" else self.recent_cs_approx
+        return self.recent if which == "q" else self.recent_cs
+
     def qexpr(self, h):
         r = self.r
-        if self.recent and r.chance(self.p.get("requery_pct", 45)):
-            return r.choice(self.recent)
+        rec = self._recent(h, "q")
+        if rec and r.chance(self.p.get("requery_pct", 45)):
+            return r.choice(rec)
         e = self.egf(h).query()
-        self.recent.append(e)
-        if len(self.recent) > 6:
-            self.recent.pop(0)
+        rec.append(e)
+        if len(rec) > 6:
+            rec.pop(0)
         return e
 
     def gen_constraint(self, h):
         r = self.r
-        if self.recent_cs and r.chance(8):
-            return r.choice(self.recent_cs)  # duplicate add
+        rec = self._recent(h, "c")
+        if rec and r.chance(8):
+            return r.choice(rec)  # duplicate add
         c = self.egf(h).constraint(h.ref)
-        self.recent_cs.append(c)
-        if len(self.recent_cs) > 8:
-            self.recent_cs.pop(0)
+        rec.append(c)
+        if len(rec) > 8:
+            rec.pop(0)
         return c
 
     def pick_n(self, ref, e, extras):
@@ -410,7 +421,8 @@ class HistoryGen:
                 v = self.egf(h).const(w)
             op.update(op="solution", e=e, v=v, extra=ex)
         elif kind in ("is_true", "is_false"):
-            e = r.choice(self.recent_cs) if (self.recent_cs and r.chance(50)) else self.egf(h).boolean(1)
+            rc_ = self._recent(h, "c")
+            e = r.choice(rc_) if (rc_ and r.chance(50)) else self.egf(h).boolean(1)
             op.update(op=kind, e=e, extra=self.extras(h) if r.chance(30) else [])
         self.exact_arg(h, op)
         return op
